@@ -78,6 +78,7 @@ func NewVC(p *Program, fn *ssa.Function, opt VCOptions) *VC {
 }
 
 func (vc *VC) reset() {
+	vc.keys[clockKey.Name] = clockKey
 	vc.events = nil
 	vc.nfresh = 0
 	vc.ordinals = map[string]int{}
